@@ -66,7 +66,7 @@ Inductive constr :=
 | CAnnotationVar (v : str) (q : qual) (d : depth) (o : option offset)
 | CLimit (b e : Z).
 
-Inductive dvalue := VNull | VBool (b : bool) | VString (s : str).
+Inductive dvalue := VNull | VBool (b : bool) | VString (s : str) | VInt (z : Z).
 Inductive selkind := KComposite | KMulti | KDirectional.
 Inductive assign :=
 | AId (id : str)
@@ -352,7 +352,8 @@ Section Parser.
            do (value, remainder3, vt) <- get_arg remainder2;
            match vt with
            | TBool => Ok (AData set key (VBool (str_eqb value K_true)), remainder3)
-           | TInteger | TFloat | TString => Ok (AData set key (VString value), remainder3)
+           | TInteger => do z <- int_value value; Ok (AData set key (VInt z), remainder3)
+           | TFloat | TString => Ok (AData set key (VString value), remainder3)
            | TNull => Ok (AData set key VNull, remainder3)
            | _ => Err
            end
